@@ -34,15 +34,20 @@ func reservedFacts() {
 				for _, spec := range gd.Specs {
 					vs := spec.(*ast.ValueSpec)
 					for i, n := range vs.Names {
-						if (n.Name != "reservedNames" && n.Name != "isReservedName") || i >= len(vs.Values) {
+						if (n.Name != "reservedNames" && n.Name != "isReservedName" && n.Name != "reservedTypeNames") || i >= len(vs.Values) {
 							continue
+						}
+						// reservedTypeNames: names escaped in addition to the reserved table when they name a type
+						key := lang
+						if n.Name == "reservedTypeNames" {
+							key = lang + "_types_only"
 						}
 						if cl, ok := vs.Values[i].(*ast.CompositeLit); ok {
 							for _, e := range cl.Elts {
 								if kv, ok := e.(*ast.KeyValueExpr); ok {
 									if bl, ok := kv.Key.(*ast.BasicLit); ok && bl.Kind == token.STRING {
 										s, _ := strconv.Unquote(bl.Value)
-										res[lang] = append(res[lang], s)
+										res[key] = append(res[key], s)
 									}
 								}
 							}
@@ -52,6 +57,7 @@ func reservedFacts() {
 			}
 		}
 		sort.Strings(res[lang])
+		sort.Strings(res[lang+"_types_only"])
 	}
 	json.NewEncoder(os.Stdout).Encode(res)
 }
